@@ -201,8 +201,9 @@ func znano(t time.Time) int64 {
 	return t.UnixNano()
 }
 
-func coqAlert(a *types.Alert) string {
-	return vh.App("mkA", vhm.Labels(a.Labels), vh.Z(znano(a.StartsAt)), vh.Z(znano(a.EndsAt)), vh.Z(znano(a.UpdatedAt)))
+// coqPut renders "the inhibitor was sent this update of label set number l" (xop of Run/C03Run.v)
+func coqPut(l int, a *types.Alert) string {
+	return vh.App("XPut", vh.Z(int64(l)), vh.Z(znano(a.StartsAt)), vh.Z(znano(a.EndsAt)), vh.Z(znano(a.UpdatedAt)))
 }
 
 type ruleM struct {
@@ -291,14 +292,15 @@ func runCase(t *testing.T, c *Case) result {
 				muted := ih.Mutes(marker.WithContext(ctx, mk), ls)
 				got[j] = muted
 				st := mk.Status(ls.Fingerprint())
-				by := "None"
+				by := "(-1)"
 				byIdx := -1
 				switch {
 				case muted && len(st.InhibitedBy) == 1:
 					if k, ok := fpStr[st.InhibitedBy[0]]; ok {
 						byIdx = k
-						by = vh.Some(vhm.Labels(lsets[k]))
+						by = vh.Z(int64(k))
 					} else {
+						by = "999"
 						violate("inhibitedBy-unknown-fingerprint", fmt.Sprintf("%s: inhibitedBy %q is not the fingerprint of any alert ever sent", opDesc, st.InhibitedBy[0]))
 					}
 				case !muted && len(st.InhibitedBy) == 0:
@@ -308,7 +310,10 @@ func runCase(t *testing.T, c *Case) result {
 				if muted != (st.State == "suppressed") {
 					violate("marker-inconsistent-with-verdict", fmt.Sprintf("%s: Mutes(%v)=%v but marker state=%s", opDesc, ls, muted, st.State))
 				}
-				mterms = append(mterms, vh.Pair(vh.Bool(muted), by))
+				if muted && by == "(-1)" {
+					by = "998"
+				}
+				mterms = append(mterms, by)
 
 				// ---- direct oracle: the documented existential rule over the provider's firing alerts ----
 				want := false
@@ -440,11 +445,11 @@ func runCase(t *testing.T, c *Case) result {
 			var sterms []string
 			for _, rs := range ih.VerifState() {
 				sort.Slice(rs.Cached, func(i, j int) bool { return fpIdx[rs.Cached[i]] < fpIdx[rs.Cached[j]] })
-				cached := vh.ListOf(rs.Cached, func(f model.Fingerprint) string { return vhm.Labels(lsets[fpIdx[f]]) })
+				cached := vh.ListOf(rs.Cached, func(f model.Fingerprint) string { return vh.Z(int64(fpIdx[f])) })
 				var classes []string
 				for _, cl := range rs.Index {
 					sort.Slice(cl, func(i, j int) bool { return fpIdx[cl[i]] < fpIdx[cl[j]] })
-					classes = append(classes, vh.ListOf(cl, func(f model.Fingerprint) string { return vhm.Labels(lsets[fpIdx[f]]) }))
+					classes = append(classes, vh.ListOf(cl, func(f model.Fingerprint) string { return vh.Z(int64(fpIdx[f])) }))
 					if len(cl) > 1 {
 						res.tags["index-class-with-several-sources"]++
 					}
@@ -473,11 +478,11 @@ func runCase(t *testing.T, c *Case) result {
 				if i == len(slurp)-1 {
 					obs = observe(why)
 				}
-				record(now, vh.App("XOp", vh.App("OProcess", coqAlert(a))), obs)
+				record(now, coqPut(fpIdx[a.Fingerprint()], a), obs)
 				res.tags["slurped-alert"]++
 			}
 			if len(slurp) == 0 {
-				record(now, "XOp OTick", observe(why))
+				record(now, "XTick", observe(why))
 			}
 		}
 		stop := func() {
@@ -498,7 +503,7 @@ func runCase(t *testing.T, c *Case) result {
 					}
 				}
 				res.tags["gc"]++
-				record(gcNext, "XOp OGC", observe("inhibitor GC tick"))
+				record(gcNext, "XGC", observe("inhibitor GC tick"))
 				gcNext += gcInterval
 			}
 			if d := target - nowNs(); d > 0 {
@@ -546,12 +551,12 @@ func runCase(t *testing.T, c *Case) result {
 					res.tags["put-merged-by-provider"]++
 				}
 				if ih != nil {
-					record(now.UnixNano(), vh.App("XOp", vh.App("OProcess", coqAlert(stored))), observe(desc))
+					record(now.UnixNano(), coqPut(op.L, stored), observe(desc))
 				}
 			case "tick":
 				res.tags["tick"]++
 				if ih != nil {
-					record(now.UnixNano(), "XOp OTick", observe(desc))
+					record(now.UnixNano(), "XTick", observe(desc))
 				}
 			case "reload":
 				res.tags["reload"]++
@@ -620,10 +625,10 @@ func TestCheck(t *testing.T) {
 	} else {
 		cases = append(cases, vh.LoadCorpus[Case](env, "C03")...)
 		r := vh.NewRand(env.Seed)
-		n := env.N(1500, 10)
+		n := env.N(1200, 5)
 		maxOps := 12
 		if env.Tier == "thorough" {
-			maxOps = 30
+			maxOps = 24
 		}
 		for i := 0; i < n; i++ {
 			cases = append(cases, genCase(r.Fork(), maxOps))
